@@ -285,6 +285,18 @@ def run(report, index, tier):
                 ok = ES5_RESERVED <= set(v)
             except Unfoldable:
                 ok = False
+    if call:
+        kwv = {k.arg: k.value for k in call[0].keywords}.get(
+            'reserved_keywords')
+        oneshot = isinstance(kwv, ast.GeneratorExp) or (
+            isinstance(kwv, ast.Call) and isinstance(kwv.func, ast.Name)
+            and kwv.func.id in ('iter', 'map', 'filter', 'zip'))
+        r3.check(not oneshot, 'reserved_keywords is re-iterable',
+                 'minify_printer: reserved_keywords=%s' % (
+                     ast.unparse(kwv) if kwv is not None else None),
+                 'the skip set is a one-shot iterator: it is consumed by '
+                 'the first print call of the printer, later calls skip '
+                 'no reserved word', where='unparsers/es5.py:minify_printer')
     r3.check(ok, 'minify_printer passes the keyword list',
              'unparsers.es5.minify_printer', 'minify_printer does not pass '
              'a skip set covering the ES5 reserved words to '
@@ -323,6 +335,9 @@ def run(report, index, tier):
     r5 = report.rule('R07.5', 'reserved set of a scope covers free names '
                      '(own, descendants) and remapped outer names; only '
                      'declared names are remapped', floor=6)
+    class_own = {c: obf.class_methods(c) for c in obf.classes}
+    class_bases = {c: [b.id for b in node.bases if isinstance(b, ast.Name)]
+                   for c, node in obf.classes.items()}
     cm = {}
     for c, node in obf.classes.items():
         methods = {}
@@ -354,7 +369,8 @@ def run(report, index, tier):
             'reversed': lambda x: list(reversed(list(x))),
             'itemgetter': operator.itemgetter, 'next': next,
             'type': lambda o: o.__dict__['_cls']},
-            class_methods=cm, max_steps=200000)
+            class_methods=cm, max_steps=200000, class_own=class_own,
+            class_bases=class_bases)
 
     def prop(obj, name):
         ev = mkev()
@@ -435,6 +451,128 @@ def run(report, index, tier):
              'CatchScope.build_remap_symbols',
              'remapped %s' % CS.remapped_symbols,
              where='handlers/obfuscation.py:CatchScope.build_remap_symbols')
+    # the complete renaming (root call, as Obfuscator.finalize does) must be
+    # injective on the names visible in every scope: two different
+    # variables never get the same spelling (capture)
+    def all_scopes(sc):
+        yield sc
+        for c in sc.children:
+            for x in all_scopes(c):
+                yield x
+
+    def visible(sc):
+        cls = sc.__dict__['_cls']
+        if cls == 'CatchScope':
+            names = {sc.catch_symbol} | set(sc.parent.referenced_symbols)
+        else:
+            names = set(sc.referenced_symbols)
+        return names
+    trees = []
+
+    def is_sub(c, b):
+        seen = [c]
+        while seen:
+            x = seen.pop()
+            if x == b:
+                return True
+            seen.extend(class_bases.get(x, []))
+        return False
+
+    def new_scope(cls, node, parent=None):
+        obj = Obj(cls)
+        ev = builder()
+        ev.call(cm[cls]['__init__'], [node, parent], self_obj=obj)
+        return obj
+
+    def builder():
+        ev = mkev()
+        ev.functions.update({
+            'Scope': lambda node, parent=None: new_scope(
+                'Scope', node, parent),
+            'CatchScope': lambda node, parent=None: new_scope(
+                'CatchScope', node, parent),
+            'type': lambda o: (lambda *a: new_scope(
+                o.__dict__['_cls'], *a)),
+        })
+        ev.is_subclass = is_sub
+        return ev
+
+    def call(obj, meth, *args):
+        ev = builder()
+        ret, _ = ev.call(cm[obj.__dict__['_cls']][meth], list(args),
+                         self_obj=obj)
+        return ret
+
+    def build(spec, parent):
+        """spec = (kind, declared, referenced, children); the calls mirror
+        what the prewalk does: declare / reference while inside the scope,
+        close when leaving it"""
+        kind, declared, referenced, children = spec
+        if kind == 'func':
+            sc = call(parent, 'funcdecl', Obj('FuncDecl'))
+        else:
+            sc = call(parent, 'catchctx', Obj(
+                'Catch', identifier=Obj('Identifier', value=kind[1])))
+        for n in declared:
+            call(sc, 'declare', n)
+        for n in referenced:
+            call(sc, 'reference', n)
+        for ch in children:
+            build(ch, sc)
+        call(sc, 'close')
+        return sc
+    try:
+        # function f(){ var v; try{}catch(e){ g(function(){var w; e;v;z}) } }
+        G3 = new_scope('Scope', None)
+        call(G3, 'declare', 'f')
+        build(('func', ['v'], ['v', 'g'], [
+            (('catch', 'e'), [], ['e', 'g'], [
+                ('func', ['w'], ['w', 'w', 'e', 'v', 'z'], [])])]), G3)
+        call(G3, 'close')
+        trees.append(('catch + closure using the catch parameter', G3))
+        # three nested functions sharing and shadowing names
+        G4 = new_scope('Scope', None)
+        build(('func', ['x', 'y'], ['x', 'x', 'x', 'y', 'h'], [
+            ('func', ['q'], ['x', 'q', 'q', 'h'], [
+                ('func', ['r'], ['q', 'y', 'r'], [])])]), G4)
+        call(G4, 'close')
+        trees.append(('three nested functions', G4))
+        # many locals next to a catch: generated names beyond one letter
+        G5 = new_scope('Scope', None)
+        build(('func', ['a1', 'a2', 'a3'], ['a1', 'a2', 'a3', 'b'], [
+            (('catch', 'a1'), [], ['a1', 'a2'], [
+                ('func', ['a1', 'c'], ['a1', 'c', 'a3', 'b'], [])])]), G5)
+        call(G5, 'close')
+        trees.append(('catch parameter shadowing a local', G5))
+    except (Raised, AnalysisError) as e:
+        raise AnalysisError('cannot build abstract scope trees through '
+                            'Scope.nest/declare/reference/close: %s' % e)
+    for label, root in trees:
+        ev = mkev()
+        try:
+            ev.call(cm['Scope']['build_remap_symbols'],
+                    [('pyfunc', name_generator), True], self_obj=root)
+        except (Raised, AnalysisError) as e:
+            raise AnalysisError('cannot evaluate build_remap_symbols: %s'
+                                % e)
+        for sc in all_scopes(root):
+            names = sorted(visible(sc))
+            out = {}
+            for n in names:
+                ev = mkev()
+                fd = cm[sc.__dict__['_cls']]['resolve']
+                r_, _ = ev.call(fd, [n], self_obj=sc)
+                out.setdefault(r_, []).append(n)
+            clash = {k: v for k, v in out.items() if len(v) > 1}
+            r5.check(not clash, 'renaming injective: %s' % label,
+                     '%s: scope declaring %s' % (label, sorted(
+                         [sc.catch_symbol] if sc.__dict__['_cls'] ==
+                         'CatchScope' else sc.local_declared_symbols)),
+                     'after renaming, the distinct variables %s are both '
+                     'spelled %r in this scope: one captures the other' % (
+                         list(clash.values())[0] if clash else '',
+                         list(clash)[0] if clash else ''),
+                     where='handlers/obfuscation.py:build_remap_symbols')
     # resolve walks outwards
     ev = mkev()
     ret, _ = ev.call(cm['Scope']['resolve'], ['p'], self_obj=K)
